@@ -92,13 +92,13 @@ CHECKS["C11"] = dict(
     technique="Coq real-analysis proof (Coquelicot is_derive, structural induction) over generated definitions + Interval enclosure",
     design="4/C11")
 CHECKS["C03"] = dict(
-    text=("Theorems (18 obligations) over generated _normal/_nearest_neighbors/_poisson/mle/compute_ls/compute_mu: the prior is the sum of log "
+    text=("Theorems (19 obligations) over generated _normal/_nearest_neighbors/_poisson/mle/compute_ls/compute_mu: the prior is the sum of log "
           "standard-normal pdfs; the NN term is ln(rho d c_d r^(d-1) exp(-rho c_d r^d)) and the loss is the documented negative log posterior; "
           "the NN-distance density integrates to 1 over (0,inf) (is_RInt_gen) for all rho,d>0; the MLE is the unique maximiser with the closed "
           "form; Poisson k-NN term documented, maximised at ln j, equals the NN model for k=1; ls = e^3 geomean, mu = q_0.01(mle)-10 with "
           "interpolating quantile (bounded, shift-equivariant), d default, ridge target. Interval goals enclose the model at sampled (r,d,z)."),
     note=("Trusted: as C05; gammaln is an uninterpreted function lgam whose sampled values are taken as given (cross-checked against scipy/"
-          "math.lgamma). PARTIAL: k-NN normalisation for k>1, uniqueness of the ridge minimiser, loss_strictly_convex are not proved; tree "
+          "math.lgamma). The ridge start value is the unique minimiser of the ridge objective (C03_ridge_unique_minimiser, MathComp, any real closed field). PARTIAL: k-NN normalisation for k>1 and loss_strictly_convex are not proved; tree "
           "nearest-neighbour search and Ridge are contracts validated per run."),
     technique="Coq real-analysis proof (Coquelicot RInt_gen, derivatives) over generated definitions + Interval enclosure",
     design="4/C03")
